@@ -118,7 +118,7 @@ func init() {
 // genC09: forced selects one of the hand-written templates (0..c09Templates-1); -1 leaves the
 // choice to the coins. Within a run the first c09Templates of every 8 scenarios are the
 // templates in turn (GenAt), so that every batch, also the quick one, contains each of them.
-const c09Templates = 4
+const c09Templates = 5
 
 func genC09(r *kit.RNG, tier string, forced int) *C09Scenario {
 	sc := &C09Scenario{}
@@ -196,6 +196,25 @@ func genC09(r *kit.RNG, tier string, forced int) *C09Scenario {
 		sc.CrashConfig = []int{0}
 		sc.Enumerate = 1
 		sc.EnumAll = true
+		return sc
+	}
+	if pick(4, 0.07) {
+		// Template: a revocation is accepted and recorded; later the revocation store cannot be
+		// opened (or does not decode) for some days, and during those days the process restarts
+		// with a configuration that still lists the revoked key. Without its store the
+		// resolver cannot know which configured keys were revoked: nothing may be trusted.
+		sc.Keys = []C09Key{{Alg: dns.ED25519, Idx: 100 + r.Intn(40)}, {Alg: dns.ED25519, Idx: 200 + r.Intn(40)}}
+		sc.Days = 60
+		sc.Config = []int{0}
+		revAt := (31+r.Intn(8))*1440 + r.Intn(1440)
+		sc.Pubs = []C09Pub{{AtMin: 0, Keys: []int{0, 1}, Signers: []int{0}},
+			{AtMin: revAt, Keys: []int{1}, Revoked: []int{0}, Signers: []int{0, 1}},
+			{AtMin: revAt + r.Range(1, 3)*1440, Keys: []int{1}, Signers: []int{1}}}
+		from := revAt + r.Range(3, 5)*1440
+		kind := kit.Pick(r, []string{"tomb-unreadable", "tomb-unreadable", "tomb-corrupt"})
+		sc.DiskEvents = []C09DiskEvent{{AtMin: from, Kind: kind + "-on"}, {AtMin: from + r.Range(3, 6)*1440, Kind: kind + "-off"}}
+		sc.Restarts = []C09Restart{{AtMin: from + r.Range(100, 2000), Config: kit.Pick(r, [][]int{{0}, {0, 1}}), Persist: "keep"}}
+		sc.CrashConfig = []int{0}
 		return sc
 	}
 	algs := []uint8{dns.ED25519, dns.ED25519, dns.ECDSAP256SHA256, dns.RSASHA256}
@@ -1071,6 +1090,19 @@ func (x *c09Run) execute() {
 		}
 		if last >= 0 || step == 0 {
 			x.check(now, "after refresh")
+		} else if x.res.Viol == nil {
+			// No refresh reached the root in this step (the refresh was skipped or failed before
+			// asking). The one rule that holds at every instant is still looked at: a key whose
+			// revocation was recorded is never in the live set.
+			live, _ := x.live()
+			for _, k := range live {
+				if why, gone := x.noMore[k]; gone {
+					x.res.Fail("C09/revoked-key-trusted-again", "%v (no refresh reached the root in this step): key #%d is in the live trust set although its revocation was recorded (%s)", now, k, why)
+				} else if why, gone := x.inProc[k]; gone {
+					x.res.Fail("C09/revoked-key-trusted-again", "%v (no refresh reached the root in this step): key #%d is in the live trust set although this process accepted its revocation (%s)", now, k, why)
+				}
+			}
+			x.res.Probes["steps-without-a-refresh-checked"]++
 		}
 		// A refresh that accepted a new revocation and ran to completion must leave a
 		// durable record of it, or fail closed.
@@ -1181,6 +1213,12 @@ func runC09(sc *C09Scenario, tr *kit.Trace) *kit.Result {
 				applicable = applicable[op%len(applicable) : op%len(applicable)+1]
 			}
 			for _, k := range applicable {
+				if kit.WallExpired() {
+					// the batch's wall budget is used up: what was enumerated so far stands
+					res.Probes["enumeration-cut-by-the-wall-budget"]++
+					res.Nontrivial = true
+					return res
+				}
 				sub := *sc
 				sub.Enumerate = 0
 				// enough history after the fault to see restarts and the next hold-down
